@@ -43,6 +43,10 @@ def run(chk):
     lab = MapperLab(chk)
     chk.guard('flush-token', 'mapper results', lambda: tokens(chk, lab))
     chk.guard('flush', 'MapperFlush / MapperFlushAll', lambda: flush_ops(chk))
+    # entries that are neither all-zero nor PRESENT (left by update_flags without PRESENT): a failing call may not change such a leaf
+    # either - there is no token to flush it with. C02's write discipline for arbitrary entry contents, under this property's name
+    from .c02 import stale_entries
+    chk.guard('flush-token', 'arbitrary entry contents', lambda: stale_entries(chk, 'flush-token'))
     chk.guard('invpcid', 'flush_pcid', lambda: pcid(chk))
     chk.guard('invlpgb', 'flush_broadcast', lambda: broadcast(chk))
     chk.guard('invlpgb', 'builder', lambda: builder(chk))
